@@ -6,3 +6,4 @@ import AJ.Props.C04Copy
 import AJ.Props.C14Hist
 import AJ.Props.C04Deser
 import AJ.Props.C04HistDeser
+import AJ.Props.C04DocCopy
